@@ -181,15 +181,18 @@ CHECKS = {
         technique="Lean 4 proof (header map; date arithmetic round trip for all instants) + model-vs-code correspondence of display, PEG grammar and date arithmetic with property oracles"),
     "C01": dict(
         category="proof",
-        text="Lean theorems stating the decision logic of the typed store outright: spec_errors_exact, spec_envelope_exact (To, Cc, Bcc in "
-             "order; Sender else single From), spec_explicit_envelope, spec_calls_accumulate. The refinement of the code's text store "
-             "(re-parse, join, re-display on every call: Model/Builder.lean) to that typed store holds when mailbox lists round-trip "
-             "(C17) and is not yet proved in Lean: partial. Correspondence: random builder programs of 1..14 calls over adversarial names "
+        text="Lean theorems: builder_refines_spec (for every sequence of builder calls the code's text store - re-parse, join, re-display "
+             "on every call: Model/Builder.lean - gives exactly what the typed store demands: same error, or same envelope and Bcc decision, "
+             "never a panic; hypothesis EmailsRoundTrip: the addresses involved survive Display followed by parsing, the address part of "
+             "C17's mailbox round trip, evaluated per generated mailbox and list by the correspondence check), display_total (Display never "
+             "fails), and the decision logic of the typed store stated outright: spec_errors_exact, spec_envelope_exact (To, Cc, Bcc in "
+             "order; Sender else single From), spec_explicit_envelope, spec_calls_accumulate. Partial: EmailsRoundTrip itself (grammar o "
+             "Display on addresses) is not proved. Correspondence: random builder programs of 1..14 calls over adversarial names "
              "and every address class; both the model of the code and the typed-store specification are compared with Message::envelope(), "
              "the error kind, and the presence of Bcc in the formatted header section.",
         design_ref="DESIGN.md 5 C01",
         note="Trusted: Lean kernel; axioms propext/Quot.sound/Classical.choice; Builder.specBuild as the meaning of the property; model + harness.",
-        technique="Lean 4 proof of the specification's decision logic + model-and-spec-vs-code correspondence on random builder programs"),
+        technique="Lean 4 proof (refinement of the text-store model to the typed-store specification under an explicit round-trip hypothesis; decision logic of the specification) + model-and-spec-vs-code correspondence on random builder programs"),
     "C11": dict(
         category="proof",
         text="Lean theorems on the formatting model: parse_format / parse_format_multipart / parse_message (the RFC 2046 reader of "
